@@ -53,6 +53,23 @@ fn loc(r: &mut Xo) -> f64 {
 fn gen_type(r: &mut Xo, fam: u64) -> DistType {
     match fam {
         0 => {
+            if r.chance(1, 6) {
+                // degenerate and nearly degenerate ranges, signed zeros included (low == high holds for -0.0, 0.0)
+                let (low, high) = *r.pick(&[
+                    (-0.0, 0.0),
+                    (0.0, -0.0),
+                    (-0.0, -0.0),
+                    (0.0, 0.0),
+                    (5.0, 5.0),
+                    (f64::MAX, f64::MAX),
+                    (f64::MIN, f64::MIN),
+                    (-f64::from_bits(1), f64::from_bits(1)),
+                    (0.0, f64::from_bits(1)),
+                    (1.0, up(1.0)),
+                    (-f64::MAX / 2.0, f64::MAX / 2.0),
+                ]);
+                return DistType::Uniform { low, high };
+            }
             let a = loc(r);
             let b = if r.chance(1, 3) { a } else { loc(r) };
             DistType::Uniform { low: a.min(b), high: a.max(b) }
